@@ -20,23 +20,25 @@ def holds(r, src, target):
     if kind == "crash":
         f, _ = judge.judge(r, src)
         return any(k == kind and s[:1] == sig[:1] for k, s, _ in f)
-    if r.get("parse1") != "ok":
+    # cheap exits on the raw answer, before anything is decoded
+    if not r.parsed:
         return False
-    # cheap exits before any tree is parsed
     if kind == "output-does-not-parse":
-        if r.get("parse2") == "ok":
+        if not r.has(b'"parse2":"err"'):
             return False
-    elif r.get("parse2") != "ok":
+    elif not r.has(b'"parse2":"ok"'):
         return False
-    elif kind == "ast-changed" and r.get("ast_eq", True) and r.get("imports_eq", True):
-        return False
+    elif kind == "ast-changed":
+        if r.has(b'"ast_eq":true') and r.has(b'"imports_eq":true'):
+            return False
     elif kind == "not-idempotent":
-        return not r.get("idempotent", True)
-    elif kind == "comments-lost-or-reordered" and r.get("comments_eq", True):
+        return r.has(b'"idempotent":false')
+    elif kind == "comments-lost-or-reordered" and r.has(b'"comments_eq":true'):
         return False
-    if kind != "ast-changed" and "tree1" in r:
-        r = {k: v for k, v in r.items() if k not in ("tree1", "tree2")}
-    f, _ = judge.judge(r, src)
+    d = r.data()
+    if kind != "ast-changed" and "tree1" in d:
+        d = {k: v for k, v in d.items() if k not in ("tree1", "tree2")}
+    f, _ = judge.judge(d, src)
     return any(k == kind and s == sig for k, s, _ in f)
 
 
@@ -315,13 +317,7 @@ def minimise_all(items, timeout=20.0):
         batches = [m.next_batch(wave) for m in active]
         flat = [s for b in batches for s in b]
         owner = [m for m, b in zip(active, batches) for _ in b]
-        res = drv.fmt_many(flat, trees=False, timeout=timeout)
-        # full trees only where the verdict depends on them
-        want = [i for i, (m, r) in enumerate(zip(owner, res)) if m.target[0] == "ast-changed" and judge.needs_trees(r)]
-        if want:
-            r2 = drv.fmt_many([flat[i] for i in want], trees=True, timeout=timeout)
-            for i, r in zip(want, r2):
-                res[i] = r
+        res = drv.fmt_many(flat, trees=[m.target[0] == "ast-changed" for m in owner], keep_text=False, timeout=timeout)
         pos = 0
         for m, b in zip(active, batches):
             if b:
